@@ -453,6 +453,21 @@ def replay(v):
                      (cfg.simulation.max_cherenkov_angle, back.simulation.max_cherenkov_angle)):
             if abs(a - b) > 4.5e-16 * abs(a):
                 return {"reproduced": True, "key": "configuration round trip changes a dimensional field", "detail": f"{a!r} -> {b!r}"}
+        if "incompatible" in ob:
+            # the public API with a quantity whose unit astropy itself cannot convert to the field's canonical unit (no
+            # equivalencies): construction must fail, for a value that would otherwise be perfectly valid
+            probes = [(Detector.InitialPos, "altitude", Quantity(3.0, "s")), (Detector.InitialPos, "latitude", Quantity(0.2, "km")), (Detector.InitialPos, "longitude", Quantity(0.2, "km")),
+                      (Detector.Optical, "telescope_effective_area", Quantity(2.0, "m")), (Detector.Radio, "low_frequency", Quantity(2.0, "km")),
+                      (Detector.Radio, "low_frequency", Quantity(20.0, "m")), (Detector.Radio, "high_frequency", Quantity(0.5, "m")), (Detector.Radio, "gain", Quantity(1.0, "km"))]
+            for cls_, fld, q in probes:
+                if field and fld not in field and field.split(".")[-1] != fld:
+                    continue
+                try:
+                    got = getattr(cls_(**{fld: q}), fld)
+                except Exception:
+                    continue
+                return {"reproduced": True, "key": f"{cls_.__qualname__}.{fld}: a quantity with an incompatible unit is accepted",
+                        "detail": f"{cls_.__qualname__}({fld}={q!s}) was accepted and stored as {got!r}; astropy cannot convert {q.unit} to the field's canonical unit"}
         if "converted with astropy" in ob or "bare number" in ob or "incompatible" in ob:
             try:
                 a = Detector.InitialPos(altitude=Quantity(5000.0, "m")).altitude
